@@ -193,7 +193,7 @@ func runStream(e *simcore.Env, tp *simcore.Tape) {
 	synctest.Test(e.T, func(*testing.T) {
 		knobDesc, knobRestore := simknobs.Draw(tp, "stream")
 		defer knobRestore()
-		e.Event("%s", knobDesc)
+		simknobs.Record(e, knobDesc)
 		s := wl.GenStreamSchema(tp, wl.SchemaOpts{MaxShards: 3})
 		repo := simmeta.New()
 		s.Install(repo)
@@ -357,7 +357,7 @@ func runMeasureOn(e *simcore.Env, tp *simcore.Tape, cluster bool) {
 	synctest.Test(e.T, func(*testing.T) {
 		knobDesc, knobRestore := simknobs.Draw(tp, "measure")
 		defer knobRestore()
-		e.Event("%s", knobDesc)
+		simknobs.Record(e, knobDesc)
 		s := wl.GenMeasureSchema(tp, wl.SchemaOpts{MaxShards: 3})
 		repo := simmeta.New()
 		s.Install(repo)
